@@ -58,6 +58,15 @@ var mvs = []mvT{
 
 var counter atomic.Int64
 
+// allSpellings (replay): every case extracts into every spelling, not only the one its number selects.
+var allSpellings atomic.Bool
+
+// unzipDirSpellings are spellings of <base>/out (absolute: cases run in parallel and the working directory
+// is process wide; C12 covers the relative ones).
+func unzipDirSpellings(base string) []string {
+	return []string{base + "/out", base + "/out/", base + "/./out", base + "//out", base + "/out/.", base + "/x/../out", base + "/out//", "/" + base + "/out"}
+}
+
 func walk(dir string) (map[string]string, error) {
 	out := map[string]string{}
 	err := filepath.Walk(dir, func(p string, info os.FileInfo, err error) error {
@@ -193,8 +202,18 @@ func one(scratch string, paths []string, modes []zipref.Mode, goMod string, mv m
 		return fmt.Sprintf("created archive violates a documented restriction: invalid entries %q sizeErr=%v", inv, se), true
 	}
 	dir := filepath.Join(base, "out")
-	if err := modzip.Unzip(dir, m, zp); err != nil {
-		return fmt.Sprintf("created archive for %q does not extract: %v", paths, err), true
+	// the same directory spelled the way callers spell directories; which spelling rotates with the case
+	// (every spelling meets every shape of listing many times over)
+	os.MkdirAll(filepath.Join(base, "x"), 0o755)
+	sps := unzipDirSpellings(base)
+	if !allSpellings.Load() {
+		sps = sps[int(id)%len(sps):][:1]
+	}
+	for _, spelled := range sps {
+		os.RemoveAll(dir)
+		if err := modzip.Unzip(spelled, m, zp); err != nil {
+			return fmt.Sprintf("created archive for %q does not extract into %q: %v", paths, strings.Replace(spelled, base, "<base>", 1), err), true
+		}
 	}
 	got, err := walk(dir)
 	if err != nil {
@@ -525,6 +544,7 @@ func Replay(r *fw.Run, raw json.RawMessage) {
 		r.Violation("replay", err.Error(), nil)
 		return
 	}
+	allSpellings.Store(true)
 	if c.Size == "overlap" {
 		r.States.Add(1)
 		r.Sample(c)
